@@ -45,8 +45,10 @@ def build_harness(src, flavour="plain", defs="", name=None, extra_src=(), extra_
     name = name or os.path.splitext(src)[0]
     exe = os.path.join(BUILD, flavour, name)
     srcs = [os.path.join(HARN, src)] + [os.path.join(HARN, s) for s in extra_src]
-    cmd = "gcc %s -D__PTHREAD -DAdd_ -DUSE_VENDOR_BLAS -DSLU_MT_VERIF %s -I%s/SRC -I%s %s -o %s %s %s -lopenblas -lpthread -lm" % (
-        _FLAGS[flavour], defs, REPO, HARN, " ".join(srcs), exe, lib, extra_link)
+    # the `fault` flavour routes the library's allocation points to the harness; the harness's own SUPERLU_MALLOC/SUPERLU_FREE must go the same way
+    inc = ("-include %s/vf_alloc.h" % HARN) if flavour == "fault" else ""
+    cmd = "gcc %s %s -D__PTHREAD -DAdd_ -DUSE_VENDOR_BLAS -DSLU_MT_VERIF %s -I%s/SRC -I%s %s -o %s %s %s -lopenblas -lpthread -lm" % (
+        _FLAGS[flavour], inc, defs, REPO, HARN, " ".join(srcs), exe, lib, extra_link)
     r = sh(cmd)
     if r.returncode != 0:
         raise RuntimeError("harness build failed: %s\n%s" % (cmd, r.stderr[-4000:]))
